@@ -7,7 +7,9 @@
              view.py / request.py step by step), its declarative judge, wire glue. *)
 From Coq Require Import List NArith ZArith Bool Arith.
 Import ListNotations.
-Require Import Verif.Lib.Wire Verif.Lib.C13Bracket Verif.Gen.Facts_C13.
+Require Import Verif.Lib.Wire Verif.Lib.C13Bracket.
+Require Export Verif.Lib.C13Monad.
+Require Import Verif.Gen.Facts_C13.
 
 (* ================================================================ part (a) *)
 Definition kind_of (su : summ) : kind := fst (fst su).
@@ -97,33 +99,7 @@ Definition s_faults (s : scn) := match s with Scn _ f _ _ => f end.
 Definition s_regs (s : scn) := match s with Scn _ _ r _ => r end.
 Definition s_sub (s : scn) := match s with Scn _ _ _ b => b end.
 
-Record pev := mkEv { e_pt : N; e_lvl : N; e_depth : N; e_cur : bool; e_aux : N }.
-
-(* world: thread-local stack (frames named by the level of their request), event log,
-   the current request's callback deques and callback counters *)
-Record state := mkSt { stk : list N; log : list pev; rq : list N; fq : list N; nr : N; nf : N }.
-Inductive res := Ok (v : N) | Ex (k : N).
-Definition M := state -> state * res.
-
-Definition ret (v : N) : M := fun st => (st, Ok v).
-Definition raise (k : N) : M := fun st => (st, Ex k).
-Definition bind (m : M) (f : N -> M) : M :=
-  fun st => match m st with (st', Ok v) => f v st' | (st', Ex k) => (st', Ex k) end.
-Definition seq (m n : M) : M := bind m (fun _ => n).
-(* try: m  except Exception as k: h k *)
-Definition catch (m : M) (h : N -> M) : M :=
-  fun st => match m st with (st', Ex k) => h k st' | r => r end.
-(* try: m  finally: f     (an exception of f replaces the outcome of m) *)
-Definition finally (m f : M) : M :=
-  fun st => match m st with
-            | (st', r) => match f st' with (st'', Ok _) => (st'', r) | (st'', Ex k) => (st'', Ex k) end
-            end.
-Definition upd_stk (f : list N -> list N) : M :=
-  fun st => (mkSt (f (stk st)) (log st) (rq st) (fq st) (nr st) (nf st), Ok 0).
-Definition push (l : N) : M := upd_stk (cons l).
-Definition pop : M := upd_stk (@tl N).                  (* ThreadLocalManager.pop: no-op when empty *)
-(* RequestContext / invoke_exception_view:  push; try: m finally: pop *)
-Definition frame (l : N) (m : M) : M := seq (push l) (finally m pop).
+(* pev, state, res, M, ret/raise/bind/seq/catch/finally, push/pop/frame, while_, prims: Lib/C13Monad.v *)
 
 Definition top_is (l : N) (s : list N) : bool := match s with x :: _ => N.eqb x l | [] => false end.
 
@@ -289,6 +265,86 @@ Fixpoint run_request (ev : N) (l : N) (sc : scn) (tw : bool) : M :=
         end))).
 
 Definition init_state (s0 : list N) : state := mkSt s0 [] [] [] 0 0.
+
+(* ---- the translated router functions (Gen/Facts_C13.v gen_*, from harness/c13/translate_b.py) are parametric in
+   their leaves (Lib/C13Monad.prims).  Reference programs over the same leaves: what the translation of the
+   current source is expected to equal, pointwise, for EVERY value of the leaves (Proofs/C13_d.v gen_*_is_ref) *)
+Definition ref_resp_loop (P : prims) : M :=
+  seq (while_fuelled (p_resp_fuel P) (p_resp_pending P)
+         (bind (p_resp_popleft P) (fun cb => seq (p_resp_call P cb) (ret 0)))) (ret 0).
+Definition ref_fin_loop (P : prims) : M :=
+  seq (while_fuelled (p_fin_fuel P) (p_fin_pending P)
+         (bind (p_fin_popleft P) (fun cb => seq (p_fin_call P cb) (ret 0)))) (ret 0).
+Definition ref_finish_request (P : prims) : M :=
+  bind (p_fin_pending P) (fun b => if truthy b then seq (ref_fin_loop P) (ret 0) else ret 0).
+Definition ref_invoke_body (P : prims) (tw : bool) : M :=
+  bind (if tw then p_handle_tweens P else p_handle_orig P) (fun r =>
+  seq (bind (p_resp_pending P) (fun b => if truthy b then ref_resp_loop P else ret 0))
+  (seq (bind (p_has_listeners P) (fun b => if truthy b then p_notify_newresponse P else ret 0))
+  (ret r))).
+Definition ref_invoke_request (P : prims) (tw : bool) : M :=
+  finally (ref_invoke_body P tw) (ref_finish_request P).
+(* with RequestContext(request): m *)
+Definition ref_scope (P : prims) (m : M) : M := seq (p_push P) (finally m (p_pop P)).
+Definition ref_extensions (P : prims) : M :=
+  bind (p_has_extensions P) (fun b => if truthy b then p_setup P else ret 0).
+Definition ref_default_execution_policy (P : prims) : M :=
+  seq (p_setup P) (seq (ref_extensions P) (ref_scope P (ref_invoke_request P true))).
+Definition ref_invoke_subrequest (P : prims) (tw : bool) : M :=
+  seq (ref_extensions P) (ref_scope P (ref_invoke_request P tw)).
+Definition ref_error_handler (P : prims) (k : N) : M :=
+  catch (p_invoke_exception_view P k) (fun k2 => if p_is_notfound P k2 then raise k else raise k2).
+Definition ref_excview_tween (P : prims) : M := catch (p_handler P) (ref_error_handler P).
+
+(* the leaves as the pipeline interpreter understands them, for the request at level l with scenario sc;
+   [chain] is what self.handle_request (the tween chain) does *)
+Definition cb_pending (q : state -> list N) : M :=
+  fun st => (st, Ok (match q st with [] => 0 | _ => 1 end)).
+Definition resp_popleft : M :=
+  fun st => match rq st with
+            | [] => (st, Ex 98)
+            | o :: rest => (mkSt (stk st) (log st) rest (fq st) (nr st + 1) (nf st), Ok o)
+            end.
+Definition fin_popleft : M :=
+  fun st => match fq st with
+            | [] => (st, Ex 98)
+            | o :: rest => (mkSt (stk st) (log st) (rq st) rest (nr st) (nf st + 1), Ok o)
+            end.
+Definition resp_call (l : N) (sc : scn) (o : N) : M := fun st => hit l sc P_RESP_CB o (N.pred (nr st)) false st.
+Definition fin_call (l : N) (sc : scn) (o : N) : M := fun st => hit l sc P_FIN_CB o (N.pred (nf st)) false st.
+Definition is_notfound (k : N) : bool := N.eqb k K_PM || N.eqb k K_NOTFOUND.
+Definition prims_of (ev l : N) (sc : scn) (subrun : option M) (chain : M) : prims :=
+  mkPrims chain (handle_request l sc subrun)
+          (cb_pending rq) resp_popleft (resp_call l sc)
+          (fun st => S (length (rq st) + pend 0 P_RESP_CB (s_regs sc) (nr st)))
+          (cb_pending fq) fin_popleft (fin_call l sc)
+          (fun st => S (length (fq st) + pend 1 P_FIN_CB (s_regs sc) (nf st)))
+          (ret 1) (hit0 l sc P_NEWRESP)
+          (ret 0) (ret 0)
+          (push l) pop
+          (tween l sc P_UNDER_IN P_UNDER_OUT (handle_request l sc subrun))
+          (fun k => frame l (call_views l sc (exc_views ev k)))
+          is_notfound.
+(* the tween chain with the GENERATED excview tween in the middle, and the interpreter built from the generated
+   programs at every level of the scenario tree (proved equal to run_request / run_top) *)
+Definition gen_chain (ev l : N) (sc : scn) (subrun : option M) : M :=
+  tween l sc P_OVER_IN P_OVER_OUT (gen_excview_tween (prims_of ev l sc subrun (ret 0))).
+Definition prims_top (ev l : N) (sc : scn) (subrun : option M) : prims :=
+  prims_of ev l sc subrun (gen_chain ev l sc subrun).
+Fixpoint gen_run_request (ev : N) (l : N) (sc : scn) (tw : bool) : M :=
+  with_fresh_request
+    (gen_invoke_subrequest
+       (prims_top ev l sc (match s_sub sc with
+                           | NoSub => None
+                           | Sub tw' sc' => Some (gen_run_request ev (l + 1) sc' tw')
+                           end)) tw).
+Definition gen_run_top (ev : N) (sc : scn) (s0 : list N) : state * res :=
+  with_fresh_request
+    (gen_default_execution_policy
+       (prims_top ev 0 sc (match s_sub sc with
+                           | NoSub => None
+                           | Sub tw' sc' => Some (gen_run_request ev 1 sc' tw')
+                           end))) (init_state s0).
 Definition run_top (ev : N) (sc : scn) (s0 : list N) : state * res :=
   run_request ev 0 sc true (init_state s0).
 
@@ -442,7 +498,7 @@ Definition run_C13 (v : val) : val :=
     match v with
     | VL [ev; sc; ob] =>
         olet ev := get_N ev in olet sc := get_scn 16 sc in
-        let '(st, r) := run_top ev sc [] in
+        let '(st, r) := gen_run_top ev sc [] in    (* the interpreter assembled from the GENERATED programs *)
         let d := N.of_nat (length (stk st)) in
         olet jo := match ob with
                    | VL [] => Some (VL [])
